@@ -102,9 +102,14 @@ def poison_suite(ctx, rnd, thorough):
         else:
             firsts.append([" LDA #%s\n" % rnd.choice(["TAB_LEN+1", "$12345+1", "1+", "+1", "1++2", "K+*", "'A+1", "1+%2", "A B+1", "5/0", "300", "NOSUCH", "NOSUCH+1", "$G1+1", "1+$G1", "65536+1"]),
                            " INCLUDE %s\n" % rnd.choice(["lib.asm", "nosuch.asm"])][:rnd.choice([1, 2])])
-    chunks = [firsts[i:i + 25] for i in range(0, len(firsts), 25)]
+    # ONE earlier program per interpreter: every 'first' gets a freshly forked process (the parent has never imported the assembler), so that
+    # whatever a first leaves behind is what the probes meet - with several firsts per interpreter only the earliest one could ever matter
+    import sys
+    ctxmp = mp.get_context("fork" if not any(m.startswith("cocoasm") for m in sys.modules) else "spawn")
+    chunks = [firsts[i:i + 1] for i in range(0, len(firsts), 1)]
     with mp.Pool(16) as p:
         solos = p.map(fresh, [(probes, [j], 0) for j in range(1, len(probes) + 1)], chunksize=1)
+    with ctxmp.Pool(16, maxtasksperchild=1) as p:
         res = p.map(poison_chunk, [(c, probes) for c in chunks], chunksize=1)
     ref = [dict(evs[0], cfg="solo-fresh") for evs in solos]
     if any(r["out"]["outcome"] != "ok" for r in ref):
@@ -155,8 +160,11 @@ def run(ctx):
         if not distinct_pools or distinct_pools[-1] != pl:
             distinct_pools.append(pl)
     solo_jobs = [(pl, [sidx], 0) for pl in distinct_pools for sidx in range(1, len(pl) + 1)]
+    import sys
+    ctxmp = mp.get_context("fork" if not any(m.startswith("cocoasm") for m in sys.modules) else "spawn")
+    with ctxmp.Pool(16, maxtasksperchild=1) as p:          # every warm history starts from an interpreter that has assembled nothing yet
+        ws = p.map(warm, jobs_w, chunksize=1)
     with mp.Pool(16) as p:
-        ws = p.map(warm, jobs_w, chunksize=4)
         fs = p.map(fresh, jobs_f if thorough else jobs_f[::3], chunksize=2)
         solos = p.map(fresh, solo_jobs, chunksize=1)
     solo = {}
